@@ -48,7 +48,7 @@ func sanitize(s string) string {
 
 func (r *report) writeReplay(v sym.Violation, dir string) (string, error) {
 	os.MkdirAll(dir, 0o755)
-	rf := replayFile{Property: r.opt.prop, Harness: v.Case.Harness, Package: v.Case.Pkg, Params: v.Case.Params,
+	rf := replayFile{Property: r.opt.prop, Harness: v.Case.Harness, Name: v.Case.Name, Package: v.Case.Pkg, Params: v.Case.Params,
 		Mode: modeOf(v.Case), Assignment: v.Model, Known: v.Known,
 		Expect: replayExpect{Kind: v.Kind, Label: v.Label, Detail: v.Detail}}
 	if rf.Assignment == nil {
